@@ -202,6 +202,7 @@ type region struct {
 	key     string // identifies the region in the sample caches
 	pls     []oracle.Polyline
 	evenOdd bool
+	sign    int // +1: only winding > 0 fills (Positive), -1: only winding < 0 (Negative); expected lists only
 }
 
 type item struct {
@@ -308,6 +309,9 @@ func insideBits(rg region) *bits {
 	if rg.evenOdd {
 		k += "|eo"
 	}
+	if rg.sign != 0 {
+		k += fmt.Sprintf("|sign%d", rg.sign)
+	}
 	if b, ok := insideCache[k]; ok {
 		return b
 	}
@@ -318,7 +322,16 @@ func insideBits(rg region) *bits {
 			continue
 		}
 		w := oracle.Winding(rg.pls, q)
-		if (rg.evenOdd && w%2 != 0) || (!rg.evenOdd && w != 0) {
+		switch {
+		case rg.sign > 0:
+			if w > 0 {
+				b.set(i)
+			}
+		case rg.sign < 0:
+			if w < 0 {
+				b.set(i)
+			}
+		case (rg.evenOdd && w%2 != 0) || (!rg.evenOdd && w != 0):
 			b.set(i)
 		}
 	}
